@@ -158,6 +158,10 @@ impl Scenario for Hs {
         v.push(json!({"stage": "open", "b": "normal-then-heartbeat", "timeout": true, "auth": "plain", "info": false}));
         v.push(json!({"stage": "open", "b": "normal-then-blocked", "timeout": true, "auth": "plain", "info": false}));
         v.push(json!({"stage": "open", "b": "close-eof", "timeout": true, "auth": "plain", "info": false}));
+        // ... hanging up in a way that shows as a reset on reads and / or a broken pipe on writes
+        for hangup in ["reset", "pipe", "reset+pipe"] {
+            v.push(json!({"stage": "open", "b": "close-eof", "timeout": true, "auth": "plain", "info": false, "hangup": hangup}));
+        }
         // a transport that takes a few bytes per write call and never says would-block
         for chunk in [1usize, 5, 64] {
             v.push(json!({"stage": "open", "b": "normal", "timeout": true, "auth": "plain", "info": false, "chunk": chunk}));
@@ -230,6 +234,12 @@ impl Scenario for Hs {
         if let Some(c) = p["chunk"].as_u64() {
             cfg.write_chunk = Some(c as usize);
         }
+        cfg.hangup = match p["hangup"].as_str() {
+            Some("reset") => "reset",
+            Some("pipe") => "pipe",
+            Some("reset+pipe") => "reset+pipe",
+            _ => "eof",
+        };
         if let Some(k) = p["cut"].as_u64() {
             cfg.deliver_cuts = false;
             cfg.force_cuts = vec![k as usize];
